@@ -20,8 +20,7 @@ REWRITE_ALWAYS = {
 }
 # additional rewrites for scheduler-visible locks / tickers (C17b, C18, -race passes)
 REWRITE_SYNC = {
-    "pkg/dynamic/informer/informer.go": [("sync", "metacontroller/pkg/internal/verif/vsync"), ("time", "metacontroller/pkg/internal/verif/vtime")],
-    "pkg/dynamic/informer/factory.go": [("sync", "metacontroller/pkg/internal/verif/vsync")],
+    "pkg/dynamic/informer/informer.go": [("time", "metacontroller/pkg/internal/verif/vtime")],
 }
 
 
